@@ -639,7 +639,19 @@ func (g *gen) otherStmt(asset string) {
 			g.prog.Stmts = append(g.prog.Stmts, Save{AllAsset: LitAsset{asset}, Acc: acc})
 		} else {
 			g.use("stmt_save")
-			g.prog.Stmts = append(g.prog.Stmts, Save{Mon: g.monetaryLit(asset, g.amount()), Acc: acc})
+			var mon Expr = g.monetaryLit(asset, g.amount())
+			if g.r.Chance(1, 2) { // the amount of a save is an expression like any other (variable, sum, difference)
+				mon = g.monetaryExpr(asset, 0)
+				if _, ok := mon.(BinOp); ok {
+					g.use("stmt_save_arithmetic")
+				}
+			}
+			if g.r.Chance(1, 12) { // a difference that comes out negative
+				a := g.amount()
+				mon = BinOp{'-', g.monetaryLit(asset, a), g.monetaryLit(asset, new(big.Int).Add(a, big.NewInt(int64(1+g.r.Intn(500)))))}
+				g.use("stmt_save_negative_difference")
+			}
+			g.prog.Stmts = append(g.prog.Stmts, Save{Mon: mon, Acc: acc})
 		}
 	}
 }
